@@ -361,7 +361,7 @@ def write_evidence(mod, ctx):
         "wall_s": round(ctx.elapsed(), 2),
         "violations": sum(v["count"] for v in ctx.violations.values()),
         "violation_keys": sorted(ctx.violations),
-        "verdict": "violated" if ctx.violations else ("inconclusive" if ctx.inconclusive else "held-on-observed"),
+        "verdict": _verdict(ctx),
         "repo": REPO,
     }
     path = os.path.join(EVIDENCE_DIR, f"{ctx.prop}.json")
@@ -370,6 +370,15 @@ def write_evidence(mod, ctx):
         json.dump(ev, f, indent=1, sort_keys=False, ensure_ascii=True)
         f.write("\n")
     os.replace(tmp, path)
+
+
+def _verdict(ctx):
+    """violated: a violation that known_findings.json does not list; held-except-known-findings: every violation key observed is a
+    listed known finding (the run exits 0 and prints them as KNOWN-FINDING lines)."""
+    if ctx.violations:
+        known = {k["key"] for k in load_known() if k.get("property") == ctx.prop and k.get("status") == "known"}
+        return "held-except-known-findings" if all(k in known for k in ctx.violations) else "violated"
+    return "inconclusive" if ctx.inconclusive else "held-on-observed"
 
 
 def report(ctx, write_replays=True):
